@@ -2,12 +2,15 @@
 import os, random
 from verif import *
 
-def run(tier, replay=None):
-    v = Verdict("C08", tier)
+MEMORY_KINDS = ("fault", "write-outside", "source-modified", "below-minimum-touches-memory")
+def run(tier, replay=None, v=None, memory_only=False):
+    own = v is None
+    if own: v = Verdict("C08", tier)
     rng = random.Random(seed() * 104729 + 8)
     wd = workdir("c08")
     shapes = [(2, 352), (3, 416), (4, 320), (6, 608), (14, 352), (15, 320), (31, 320), (255, 320)]
-    if tier == "thorough":
+    if memory_only: shapes = [(2, 352), (4, 320), (15, 320), (33, 352)]
+    elif tier == "thorough":
         shapes += [(5, 2208), (8, 1120), (16, 640), (33, 416), (127, 352), (254, 320), (10, 4160)] + \
                   [(rng.randrange(2, 40), 32 * rng.randrange(10, 30)) for _ in range(10)]
     recs = []
@@ -35,11 +38,15 @@ def run(tier, replay=None):
     summ = [o for o in out if o["e"] == "summary"][0]
     for m in out:
         if m["e"] != "mismatch": continue
+        if memory_only and m["what"] not in MEMORY_KINDS: continue
         v.violation("%s:%s" % (m["fn"], m["what"]), "%s %s: vector %d vects=%d len=%d placement=%d detail=%d,%d" %
                     (m["fn"], m["what"], m["vec"], m["vects"], m["len"], m["placement"], m["a"], m["b"]),
                     {"mismatch": m, "seed": seed(), "tier": tier, "vector_shape": [x for x in shapes][m["vec"]] if m["vec"] < len(shapes) else None})
-    if summ["mismatches"] > 40:
+    if summ["mismatches"] > 40 and not memory_only:
         v.violation("many", "%d mismatches" % summ["mismatches"], {"seed": seed()})
+    if not own:
+        cleanup(wd)
+        return {"calls": summ["calls"], "faults": summ["faults"]}
     cov = {"evaluations": summ["calls"], "distinct_nontrivial": summ["corruptions"] + (summ["calls"] - summ["corruptions"]) // 2,
            "corruption_positions_checked": summ["corruptions"], "below_minimum_calls": summ["below_min_calls"], "vectors": len(recs),
            "source_counts": [s for s, _ in shapes], "faults": summ["faults"],
